@@ -298,7 +298,7 @@ func lkGenRoute(t *rapid.T, idx int, file string) lkRoute {
 }
 
 var lkPertKinds = []string{"dropAnn", "dupAnn", "renameRef", "retarget", "strayAnn", "aliasUnknown", "aliasDup", "dupTemplateName", "unboundTemplateName",
-	"aliasWrongType", "prefixParam", "pathNotInTemplate", "extraParam", "twoBodies", "bodyAndForm", "retype", "bodyPrimitive", "results", "verb", "changeKind", "neutralAlias", "secCollision", "reorderAnns", "bodyAndForm", "secondBinding", "aliasWrongTypeAll", "aliasWrongTypeGhost"}
+	"aliasWrongType", "prefixParam", "pathNotInTemplate", "extraParam", "twoBodies", "bodyAndForm", "retype", "bodyPrimitive", "results", "verb", "changeKind", "neutralAlias", "secCollision", "reorderAnns", "bodyAndForm", "secondBinding", "aliasWrongTypeAll", "aliasWrongTypeGhost", "siblingConflict"}
 
 func lkGen(t *rapid.T) lkModel {
 	var m lkModel
@@ -344,12 +344,21 @@ func lkSweep() []lkModel {
 			for ab := 0; ab < 4; ab++ {
 				mm := m
 				mm.Perts = []lkPert{{Kind: kind, A: ab % 2, B: ab / 2}}
+				if base == 1 && kind != "siblingConflict" {
+					// the second base project carries a route-conflict warning on the target's controller throughout
+					mm.Perts = append([]lkPert{{Kind: "siblingConflict"}}, mm.Perts...)
+				}
+				best := -1
 			targets:
 				for ci := range m.Ctrls {
 					for ri := range m.Ctrls[ci].Routes {
-						mm.Target = [2]int{ci, ri}
-						if _, applied := lkApply(mm); len(applied) > 0 {
-							break targets
+						try := mm
+						try.Target = [2]int{ci, ri}
+						if _, applied := lkApply(try); len(applied) > best {
+							best, mm.Target = len(applied), try.Target
+							if best == len(mm.Perts) {
+								break targets
+							}
 						}
 					}
 				}
@@ -480,6 +489,46 @@ func lkApply(m lkModel) ([]lkCtrl, []string) {
 				}
 				r.Anns[j].Alias = b
 				applied = append(applied, "aliasDup:"+b)
+			}
+		case "siblingConflict":
+			// neutral for linkage: a second, well-linked route of the same verb that overlaps this one (the last {name}
+			// replaced by a literal), so that the project carries a route-conflict warning next to whatever else happens
+			names := lkTemplateNames(r.Route)
+			have := false
+			for _, o := range c.Routes {
+				if o.Name == r.Name+"Sib" {
+					have = true
+				}
+			}
+			if len(names) > 0 && !have {
+				last := names[len(names)-1]
+				sib := *r
+				sib.Name = r.Name + "Sib"
+				sib.Route = strings.Replace(r.Route, "{"+last+"}", "latest", 1)
+				sib.Anns, sib.Params, sib.PreDoc = nil, nil, append([]string(nil), r.PreDoc...)
+				sib.Results = append([]string(nil), r.Results...)
+				dropped := ""
+				for _, a := range r.Anns {
+					bound := a.Ref
+					if a.Alias != "" {
+						bound = a.Alias
+					}
+					if a.Kind == "Path" && bound == last && dropped == "" {
+						dropped = a.Ref
+						continue
+					}
+					sib.Anns = append(sib.Anns, a)
+				}
+				for _, q := range r.Params {
+					if q.Name != dropped {
+						sib.Params = append(sib.Params, q)
+					}
+				}
+				if dropped != "" {
+					c.Routes = append(c.Routes, sib)
+					r = &c.Routes[m.Target[1]]
+					applied = append(applied, "siblingConflict")
+				}
 			}
 		case "secondBinding":
 			// a second @Path bound to a template name that already has one; nothing else is wrong
